@@ -46,6 +46,15 @@ def _run_inproc(case, progs, order, out):
     strategies = [multi.managed_script(case, progs[i], os.path.join(out, f"s{i}.json"), i) for i in order]
     with contextlib.redirect_stdout(io.StringIO()), contextlib.redirect_stderr(io.StringIO()):
         BacktestManager(cfg, data, strategies, bk, threads=1).run()
+    # what every strategy object looks like once the whole manager run is over (a later strategy must not reach back)
+    from vf._managed import _norm, _strkeys
+    from vf.engine import plain
+
+    after = {}
+    for i, s_ in zip(order, strategies):
+        if hasattr(s_, "_vf_view"):
+            after[i] = {"final": _norm(plain(_strkeys(multi.raw_state(s_._vf_view)))), "calls": getattr(s_, "_vf_calls", None)}
+    return after
 
 
 def _load(out, i):
@@ -92,10 +101,12 @@ def body(case, ctx: Ctx):
     # (a) sequential, in-process
     d = f"{base}-seq"
     os.makedirs(d, exist_ok=True)
-    ctx.guarded("sequential", case, _run_inproc, uc, progs, order, d)
+    after = ctx.guarded("sequential", case, _run_inproc, uc, progs, order, d) or {}
     labels.add("path.sequential")
     for pos, i in enumerate(order):
         got = _load(d, i)
+        if got is not None and i in after:
+            ctx.check(after[i]["final"] == got["final"] and after[i]["calls"] == got["calls"], "sequential.reached_back", lambda: f"strategy {i} (position {pos} of {order}) changed after its own run had finished: hook calls {got['calls']} -> {after[i]['calls']}, positions {_diff(got['final'], after[i]['final'])}", case)
         ctx.check(got is not None, "sequential.missing", lambda: f"strategy {i} (position {pos} of {order}) produced no result on the sequential path", case)
         if got is not None:
             ctx.check(got == alone[i], "sequential.differs", lambda: f"strategy {i} run at position {pos} of {order} (threads=1) differs from running it alone: {_diff(alone[i], got)}", case)
